@@ -367,7 +367,11 @@ class MultiGeoPoint(MultiShapeBase, PointLikeMixin, SimpleShapeMixin):
         if not _RE_MULTIPOINT_WKT.match(wkt_str):
             raise ValueError(f'Invalid WKT MultiPoint: {wkt_str}')
 
-        coords = cls._parse_wkt_linear_ring(wkt_str, _RE_LINEAR_RING.findall(wkt_str)[0])
+        coords = [
+            coord
+            for ring in _RE_LINEAR_RING.findall(wkt_str)
+            for coord in cls._parse_wkt_linear_ring(wkt_str, ring)
+        ]
         shapes = [
             GeoPoint(coord) for coord in coords
         ]
